@@ -20,6 +20,10 @@ Streams (S3, model vs implementation)
   parse-wrongtype    reference bytes in which known header fields carry a variant of another basic type
                      (a signature sent as STRING of 300 characters or as UINT32, a path as STRING, ...), unknown
                      message types, truncated messages: outside the statement (no oracle), model vs implementation only
+  remarshal-parsed   what the bus does when it forwards: parseMessage(bytes), `sender` set, `endian = raw[0]`,
+                     `_marshal(False, rawBody=rawBody)` - own bytes and reference bytes (both byte orders); S3 against
+                     Txdbus.Msg.remarshal, S4: the re-marshalled bytes are well-formed (every known header field keeps the
+                     type of the specification: REPLY_SERIAL stays UINT32 - repair 9fa03fd), same serial, flags, fields
   fragment-vs-general  model against model, inside the driver: the header fragment of Msg/HeaderCode.lean against the
                      general code model of the wire codec (Wire/Code.lean, C01/C02) on the signature yyyyuua(yv),
                      for every header built and every message parsed above (`gen=` in the driver's answers)
@@ -45,7 +49,7 @@ except Exception:                       # pragma: no cover - the local generator
     gv = None
 
 STREAMS = ['build', 'construct-malformed', 'parse-own', 'spec-bytes', 'parse-foreign', 'parse-foreign-containers',
-           'parse-wrongtype', 'fragment-vs-general']
+           'parse-wrongtype', 'fragment-vs-general', 'remarshal-parsed']
 THEOREMS = ['marshal_wellformed', 'serial_fresh', 'parse_marshal', 'parse_foreign', 'cannot_construct']
 TRUSTED_BASE = [
     'message body bytes: the model takes the bytes marshal.marshal produced as an input (opaque body codec; '
@@ -1063,6 +1067,9 @@ def run_foreign_cases(ctx, message, cases):
             if out[j] != hexs(enc[i][0]):
                 ctx.disagree('spec-bytes', foreign_input(x, big, serial, fields), out[j], hexs(enc[i][0]),
                              detail='Lean Spec.encodeMsg vs the Python reference serializer')
+    # the forwarding step on the reference bytes (basic-typed fields only: the model re-encodes the known fields)
+    run_remarshal(ctx, message, [(foreign_input(cases[i][0], cases[i][1], cases[i][2], cases[i][3]), enc[i][0], enc[i][1])
+                                 for i in idx if not any(c == 9 for c, _, _ in cases[i][3])][:len(idx) // 2])
     # parse-foreign
     pout = ctx.model([parse_line(e[0], e[1]) for e in enc])
     pos = {i: i for i in range(len(cases))}
@@ -1187,6 +1194,50 @@ def body_stage_error(message, raw, fds):
         return False
     finally:
         mm.unmarshal = real
+
+
+def run_remarshal(ctx, message, items):
+    """items: (input for reports, raw bytes, fds) of well-formed messages.  The bus's forwarding step on each."""
+    senders = [':1.%d' % ctx.rng.randrange(1, 500) for _ in items]
+    out = ctx.model(['remarshal %s %s' % (parse_line(raw, fds)[len('parse '):], opt_s(snd))
+                     for (inp, raw, fds), snd in zip(items, senders)])
+    for i, ((inp, raw, fds), snd) in enumerate(zip(items, senders)):
+        try:
+            p = message.parseMessage(raw, fds)
+            p.sender = snd
+            p.endian = raw[0]
+            p._marshal(False, rawBody=p.rawBody)
+            impl = {'ok': True, 'raw': hexs(p.rawMessage)}
+        except Exception as e:
+            impl = {'ok': False, 'err': exc_name(e)}
+            p = None
+        ctx.impl_trace()
+        ctx.case('remarshal-parsed', sample=None)
+        rin = dict(inp, kind2='remarshal', sender=snd)
+        if out is not None:
+            d = kv(out[i])
+            mo = {'ok': True, 'raw': d.get('raw')} if d['_head'] == 'ok' else {'ok': False, 'err': d.get('kind')}
+            if mo != impl and mo.get('err') != 'Exception':
+                ctx.disagree('remarshal-parsed', rin, mo, impl)
+        if p is None:
+            ctx.violation('remarshal-raises', 'a parsed well-formed message cannot be re-marshalled (%s)' % impl['err'],
+                          inp=rin, observed=impl['err'], expected='the message with the sender set')
+            continue
+        try:
+            a = R.wf_parse(raw, fds=fds)
+            b = R.wf_parse(p.rawMessage, fds=fds)
+        except R.NotWF as e:
+            ctx.violation('remarshal-not-well-formed',
+                          'parseMessage + _marshal(False, rawBody=...) of a well-formed message is not well-formed: %s' % e,
+                          inp=rin, observed=hexs(p.rawMessage)[:400], expected='the same message with the sender set')
+            continue
+        want = {c: v for c, v in a['known'].items() if c in R.FIELD_TYPES and c not in (7, 9)}
+        got = {c: v for c, v in b['known'].items() if c in R.FIELD_TYPES and c not in (7, 9)}
+        if (b['type'], b['serial'], b['flags'] & 3, b['body'], got, b['known'].get(7)) != \
+                (a['type'], a['serial'], a['flags'] & 3, a['body'], want, ('s', snd)):
+            ctx.violation('remarshal-differs', 're-marshalling a parsed message changes more than the sender',
+                          inp=rin, observed={str(k): list(v) for k, v in sorted(b['known'].items())},
+                          expected={str(k): list(v) for k, v in sorted(a['known'].items())})
 
 
 def body_of(raw, big):
@@ -1327,6 +1378,8 @@ def run(ctx):
             if obs['ok']:
                 ctx.stat('build:len=%s' % ('<64' if len(m.rawMessage) < 64 else '<256' if len(m.rawMessage) < 256 else '>=256'))
         run_parse_own(ctx, message, built)
+        own = [(public(x), m.rawMessage, oob) for x, obs, m, oob in built if obs['ok'] and in_domain(x)]
+        run_remarshal(ctx, message, own[:ctx.scale(quick=1500, thorough=30000)])
         mal = run_malformed(ctx, marshal, message, ctx.scale(quick=1500, thorough=50000))
         run_parse_own(ctx, message, mal)
         run_foreign(ctx, marshal, message, ctx.scale(quick=2000, thorough=70000))
